@@ -89,15 +89,26 @@ def _build(case):
     """The README workflow on the real library: H = PCxO(f); H.add_constraint_...(..., lam=weight)."""
     vs, fmin, fmax, opt, feas = _analyse(case)
     H = cls_of(case["type"])(case["f"])
+    kept = []
     for con, extra in zip(case["cons"], case["extras"]):
         lam = (fmax - fmin) + 1 + extra          # every weight exceeds max f - min f
         if con[0] == "rel":
             kw = {"lam": lam, "suppress_warnings": True}
             if con[1] != "eq":
                 kw["log_trick"] = case["log_trick"]
-            getattr(H, "add_constraint_%s_zero" % con[1])(dict(con[2]), **kw)
+            arg = dict(con[2])
+            if case.get("argobj"):
+                # the constraint is written as a model expression that the caller keeps and goes on editing
+                arg = cls_of("PUSO" if case["type"] == "PCSO" else "PUBO")(arg)
+                kept.append(arg)
+            getattr(H, "add_constraint_%s_zero" % con[1])(arg, **kw)
         else:
             getattr(H, "add_constraint_" + con[1])(*con[2], lam=lam)
+    for i, arg in enumerate(kept):
+        if i % 2:
+            arg *= -1
+        else:
+            arg += 7
     fork = case.get("fork")
     if fork:
         # a copy of the finished model gets one more constraint; the model itself must not notice
@@ -288,6 +299,8 @@ def _gen(salt, quick_n, thorough_n):
             if not _nontrivial(case) and rng.random() < 0.75:
                 continue                        # prefer cases in which the constraints change the answer
             made += 1
+            if made % 4 == 1:
+                case = dict(case, argobj=True)
             if made % 3 == 0:
                 rels = [c[1] for c in case["cons"] if c[0] == "rel"]
                 labs = _model_vars(case)
